@@ -4,6 +4,14 @@ import UtilModel.Lemmas.SizeObject
 import UtilModel.Lemmas.SizeMembers
 /-!
 # The parser model on rendered JSON documents: refinement of `evalMembers`
+
+* scanner on rendered scalars: `scanNumber_stages` (the model's `scanNumber` as four named stages, by
+  `rfl`), `scanNumber_intLit`, `scanString_plain`, `unquote_plain`, `scanScalar_render`;
+* `skip_value`/`skip_elems`/`skip_members` (mutual, by structural recursion on `JVal`): inside the skip
+  loop a rendered value of any nesting is consumed exactly; `skipNested_render`, `decodeValue_render`,
+  `decodeUnit_render`;
+* `objectLoop_step`, `objectLoop_tail`, `objectLoop_render`: the member loop computes `evalLoop`;
+  `unmarshalJSON_renderObject`, `parse_renderObject`.
 -/
 namespace U.JsonTokens
 open U U.GoJson
